@@ -29,7 +29,8 @@ def load_units(prop, tier):
                 continue
             raise
         for u in mod.units():
-            if prop in u.props and (u.tier == "quick" or tier == "thorough"):
+            # tier "experimental": kept in the tree as a record of a route that does not finish (the M-symbol BV units); never part of a verdict
+            if prop in u.props and u.tier != "experimental" and (u.tier == "quick" or tier == "thorough"):
                 us.append(u)
     return us
 
